@@ -66,11 +66,55 @@ class World:
                     self.add(m, None, "model_of:" + d.name)
                     break
 
-    def add(self, obj, parent, label):
-        entry = {"obj": obj, "parent": parent, "label": label}
+    def add(self, obj, parent, label, recipe=None):
+        entry = {"obj": obj, "parent": parent, "label": label, "recipe": recipe}
         entry["fp"] = self.fingerprint(obj)
         self.pool.append(entry)
-        return len(self.pool) - 1
+        j = len(self.pool) - 1
+        if recipe is not None and not self.is_reference:
+            self.check_against_untouched(j)
+        return j
+
+    # ------------------------------------------------------------------ history independence of derived objects
+    is_reference = False
+
+    def derive(self, obj, recipe):
+        """perform one recorded derivation step on `obj` (used for the real history and for the untouched reference world)"""
+        kind = recipe["kind"]
+        if kind == "condition":
+            var = recipe["variant"]
+            if recipe["positional"]:
+                return obj(*[self.values[n] * var for n in recipe["chosen"]])
+            return obj(**{n: self.values[n] * var for n in recipe["chosen"]})
+        if kind == "to_likelihood":
+            return obj.to_likelihood(self.values[recipe["name"]])
+        raise ValueError(kind)
+
+    def check_against_untouched(self, j):
+        """the object just derived must behave like the same derivation performed on freshly built, untouched originals: what
+        happened to its relatives before (other conditionings, evaluations, sampler runs) must not show"""
+        chain = []
+        k = j
+        while self.pool[k]["recipe"] is not None:
+            chain.append(self.pool[k]["recipe"])
+            k = self.pool[k]["parent"]
+        ref = World()
+        ref.is_reference = True
+        ref.init_graph(self.spec)
+        obj = ref.pool[k]["obj"]      # roots are created in the same order
+        for rcp in reversed(chain):
+            r, obj = refuses(lambda: ref.derive(obj, rcp))
+            if r:
+                return
+        want = ref.fingerprint(obj)
+        got = dict(self.pool[j]["fp"])
+        # (objects without a name of their own - Posterior, reduced joints - infer one from the caller's variable names: not a behaviour)
+        want.pop("name", None)
+        got.pop("name", None)
+        ok, key = self.fp_equal(got, want)
+        require(ok, f"object #{j} ({self.pool[j]['label']}) derived after the history {[t['op'] for t in self.trace[1:]]} does not behave like the same "
+                    f"derivation from untouched originals: '{key}' differs (earlier operations on its relatives leak into it)",
+                got=jsonable(self.pool[j]["fp"].get(key)), untouched=jsonable(want.get(key)), history=jsonable(self.trace[1:]))
 
     # ------------------------------------------------------------------ fingerprints
     def args_for(self, names):
@@ -162,13 +206,14 @@ class World:
                 chosen = [n for n in names if n in self.values][:1]
             if not chosen:
                 return
-            if op.get("positional") and chosen == names[:len(chosen)]:
-                r, new = refuses(lambda: obj(*[self.values[n] for n in chosen]))
-            else:
-                r, new = refuses(lambda: obj(**{n: self.values[n] for n in chosen}))
+            # siblings: the same original conditioned on different values (variant scales them; factors <= 1 keep every value
+            # admissible) must each keep their own behaviour while the others are created and used
+            var = float(op.get("variant", 1.0))
+            recipe = {"kind": "condition", "chosen": chosen, "variant": var, "positional": bool(op.get("positional") and chosen == names[:len(chosen)])}
+            r, new = refuses(lambda: self.derive(obj, recipe))
             if r or new is None:
                 return
-            j = self.add(new, i, f"cond({e['label']};{','.join(chosen)})")
+            j = self.add(new, i, f"cond({e['label']};{','.join(chosen)}" + (f";x{var}" if var != 1.0 else "") + ")", recipe=recipe)
             # a conditioned copy keeps the random-variable name of its original
             if "name" in e["fp"] and not isinstance(e["fp"]["name"], tuple) and hasattr(new, "name") and \
                     isinstance(new, (cuqi.distribution.Distribution, cuqi.likelihood.Likelihood, cuqi.density.EvaluatedDensity)) and \
@@ -192,9 +237,10 @@ class World:
             if isinstance(obj, cuqi.distribution.Distribution) and not isinstance(obj, cuqi.distribution.JointDistribution):
                 r, nm = refuses(lambda: obj.name)
                 if not r and nm in self.values:
-                    r, new = refuses(lambda: obj.to_likelihood(self.values[nm]))
+                    recipe = {"kind": "to_likelihood", "name": nm}
+                    r, new = refuses(lambda: self.derive(obj, recipe))
                     if not r:
-                        self.add(new, i, f"lik({e['label']})")
+                        self.add(new, i, f"lik({e['label']})", recipe=recipe)
         elif kind == "apply_model" and is_model:
             dists = [p for p in self.pool if isinstance(p["obj"], cuqi.distribution.Distribution)
                      and not isinstance(p["obj"], cuqi.distribution.JointDistribution)]
@@ -223,8 +269,8 @@ class World:
         np.random.seed(op.get("seed", 0))
         try:
             if isinstance(obj, cuqi.distribution.JointDistribution) and not isinstance(obj, cuqi.distribution.Distribution):
-                names = obj.get_parameter_names()
-                if len(names) < 2 or not all(n in self.values for n in names):
+                r, names = refuses(lambda: list(obj.get_parameter_names()))
+                if r or len(names) < 2 or not all(n in self.values for n in names):
                     return
                 if which == "Gibbs_legacy":
                     strat = {n: (lambda t, n=n: L.MH(t, scale=0.05, x0=np.atleast_1d(self.values[n]).astype(float))) for n in names}
@@ -235,8 +281,10 @@ class World:
                 return
             if not isinstance(obj, cuqi.distribution.Distribution):
                 return
-            names = obj.get_parameter_names()
-            if len(names) != 1 or names[0] not in self.values or obj.is_cond:
+            # (a RegularizedGaussian whose inner Gaussian has been evaluated away cannot even list its parameters: nothing to run)
+            r, names = refuses(lambda: list(obj.get_parameter_names()))
+            r2, ic = refuses(lambda: bool(obj.is_cond))
+            if r or r2 or len(names) != 1 or names[0] not in self.values or ic:
                 return
             x0 = np.atleast_1d(self.values[names[0]]).astype(float)
             if which == "MH":
@@ -275,10 +323,10 @@ def make_machine(rec, tier):
             spec = dict(spec, reg_latent=bool(reg))
             self.guarded(lambda: self.w.init_graph(spec))
 
-        @rule(i=st.integers(0, 40), mask=st.integers(1, 31), positional=st.booleans())
-        def condition(self, i, mask, positional):
+        @rule(i=st.integers(0, 40), mask=st.integers(1, 31), positional=st.booleans(), variant=st.sampled_from([1.0, 0.8, 0.6]))
+        def condition(self, i, mask, positional, variant):
             self.nsteps += 1
-            self.guarded(lambda: self.w.apply({"op": "condition", "i": i, "mask": mask, "positional": positional}))
+            self.guarded(lambda: self.w.apply({"op": "condition", "i": i, "mask": mask, "positional": positional, "variant": variant}))
 
         @rule(i=st.integers(0, 40), what=st.sampled_from(["logd", "gradient", "to_likelihood"]))
         def evaluate(self, i, what):
@@ -327,6 +375,6 @@ def run_trace(c, rec):
 
 
 SUBCHECKS = [
-    SubCheck("C11/immutability_machine", run_trace, machine=make_machine, n={"quick": 240, "thorough": 6000}, shards={"quick": 12, "thorough": 16},
+    SubCheck("C11/immutability_machine", run_trace, machine=make_machine, n={"quick": 600, "thorough": 6000}, shards={"quick": 12, "thorough": 16},
              steps={"quick": 25, "thorough": 50}),
 ]
